@@ -48,6 +48,11 @@ def gen_cases(run, n, prefix="c"):
                 continue
             vecs.append({"id": "a%d" % ai, "kind": "vars", "target": op["name"], "input": asg,
                          "expect": {"variables": expected_variables(schema, op, asg, skip)}})
+        # enum values: a symmetric renaming bug is invisible through deserialise-then-serialise (the value just lands
+        # in Other(s) and comes back); so each schema value must also be a proper variant that prints as itself
+        for en in schema.of_kind("enum"):
+            for vi, val in enumerate(schema.types[en]["values"]):
+                vecs.append({"id": "ev.%s.%d" % (en, vi), "kind": "enum", "target": "@enum-of:" + en, "input": val, "expect": {"known": True}})
         c["vectors"] = vecs
         feats = set()
         for var in op["vars"]:
@@ -90,6 +95,14 @@ def count_one_of(schema, v, t):
 
 
 def judge(c, vec, o):
+    if vec["kind"] == "enum":
+        if o is None or "no_such_probe" in o:
+            return None   # the enum is not used by this operation (not emitted): nothing to observe
+        if not o.get("ok") or o.get("reser") != vec["input"]:
+            return "enum value %r does not round-trip: %s" % (vec["input"], json.dumps(o)[:120])
+        if str(o.get("debug", "")).startswith("Other("):
+            return "schema enum value %r is not a variant of the generated enum (lands in %s): constructing it from Rust cannot give the schema's name" % (vec["input"], o.get("debug"))
+        return None
     if not c.get("schema_model") or not c.get("doc_model"):
         # committed witness without a model: judged against its stored expectation only
         if o is None or not o.get("ok"):
@@ -161,8 +174,11 @@ def execute(run, cases, tag="b0"):
         failed = False
         for vec in c["vectors"]:
             run.evaluated()
-            run.count("assignments")
-            for var in op["vars"]:
+            if vec["kind"] == "enum":
+                run.count("enum-values-checked")
+            else:
+                run.count("assignments")
+            for var in (op["vars"] if vec["kind"] == "vars" else []):
                 n1 = count_one_of(schema, vec["input"].get(var["name"]), var["type"])
                 if n1:
                     run.count("one-of-value", n1)
